@@ -21,13 +21,17 @@
 //	3 g      Tick g
 //	4 g k    Run g k
 //	5 / 6    the peer subscribes to / unsubscribes from the DeviceDiagnosis feature
+//	8 m k n  Burst: k StartHeartbeat calls with nothing parked in between (m = 0: back to back from one goroutine
+//	         under GOMAXPROCS(1); m = 1: k goroutines released together), then a free run of n refreshes
+//	0 t w    Setup with a peer whose connection takes w ms per write
 //	7 [1]    DataCopy(heartbeat); with 1 (and after every stop) more than one period of real time passes first
 //
 // obs encoding: 0 ready, 1 busy, 2 blocked, 3 not runnable, 4 h parked at hook h, 5 done, 6 b
 // running, 7 StartHeartbeat error, 8 t waiter t acquired, 9 g stream g started, 10 c n fresh tmo
 // refresh (counter, notifies to the peer, timestamp current, announced timeout ms), 11 stream exited,
 // 12 p late timing (period ms snapped to the announced timeout or timeout-2s, gaps above timeout+tol),
-// 13 site panic, 14 b subscribed, 15 [c] stored counter.
+// 13 site panic, 14 b subscribed, 15 [c] stored counter, 16 g live fast c nn mono after a burst: stream left over,
+// distinct streams that refreshed, the n refreshes came quicker than one stream produces them, last counter, notifies, counters increased.
 package main
 
 import (
@@ -54,11 +58,15 @@ import (
 // ---------------------------------------------------------------- connection recorder
 
 type writer struct {
-	mu   sync.Mutex
-	msgs [][]byte
+	mu    sync.Mutex
+	msgs  [][]byte
+	delay atomic.Int64 // ns per write: a peer behind a slow connection
 }
 
 func (w *writer) WriteShipMessageWithPayload(msg []byte) {
+	if d := w.delay.Load(); d > 0 {
+		time.Sleep(time.Duration(d))
+	}
 	w.mu.Lock()
 	defer w.mu.Unlock()
 	w.msgs = append(w.msgs, append([]byte(nil), msg...))
@@ -86,10 +94,10 @@ type worker struct {
 	state   int // 1 waiting for the mutex, 2 parked at a hook, 3 done
 	hook    int64
 	// results
-	retB   bool
-	err    error
-	panicS string
-	expect bool // a successful return means a new stream was started
+	retB    bool
+	err     error
+	panicS  string
+	expect  bool // a successful return means a new stream was started
 	counted bool // that stream was waited for
 }
 
@@ -110,6 +118,7 @@ type stream struct {
 	pass     int // iterations that may run without parking (guarded by sched.mu)
 	fireLog  []time.Time
 	reported bool // exit reported to the model
+	freePass bool // passed Heartbeat.fired on the free budget (guarded by sched.mu)
 	parkedAt *time.Time
 }
 
@@ -120,6 +129,13 @@ type sched struct {
 	sByGoid  map[int64]*stream
 	draining bool
 	m        *impl
+	free     int         // refreshes that any stream may still perform without parking (operation Burst)
+	freeRefr []freeEvent // the refreshes of the current free run, in the order of the data lock
+}
+
+type freeEvent struct {
+	st *stream
+	r  refresh
 }
 
 func goid() int64 {
@@ -204,6 +220,11 @@ func (s *sched) yield(point string) {
 			s.mu.Unlock()
 			return
 		}
+		if s.free > 0 {
+			st.freePass = true
+			s.mu.Unlock()
+			return
+		}
 		s.mu.Unlock()
 		st.fired <- now
 		<-st.release
@@ -215,6 +236,17 @@ func (s *sched) yield(point string) {
 			return
 		}
 		r := s.m.readData()
+		s.mu.Lock()
+		if st.freePass {
+			st.freePass = false
+			if s.free > 0 {
+				s.free--
+			}
+			s.freeRefr = append(s.freeRefr, freeEvent{st, r})
+			s.mu.Unlock()
+			return
+		}
+		s.mu.Unlock()
 		select {
 		case st.refr <- r:
 		default:
@@ -322,8 +354,10 @@ type impl struct {
 	threads    map[int64]*worker
 	waiter     *worker
 	added      atomic.Bool // AddFunctionType(heartbeat) was executed
-	stopped    bool // something was stopped since the last Read (then Read waits for a stray refresh)
-	nilPanics  bool // probe result: a stream without feature panics (unrepaired code)
+	stopped    bool        // something was stopped since the last Read (then Read waits for a stray refresh)
+	ids        []*stream   // model number -> stream
+	adopted    int         // streams of the scheduler that have a model number
+	nilPanics  bool        // probe result: a stream without feature panics (unrepaired code)
 }
 
 var stats = struct {
@@ -331,6 +365,7 @@ var stats = struct {
 	gaps        map[int64][]int64 // announced timeout -> measured gaps (ms)
 	refreshes   int
 	realTimeRun int
+	bursts      int
 	probe       string
 }{gaps: map[int64][]int64{}}
 
@@ -618,8 +653,8 @@ func (m *impl) report(w *worker, st int, nBefore int) []hx.Zs {
 					n := len(m.sc.streams)
 					m.sc.mu.Unlock()
 					if n > nBefore {
-						for g := nBefore; g < n; g++ {
-							out = append(out, hx.Zs{9, int64(g)})
+						for _, g := range m.adopt(false) {
+							out = append(out, hx.Zs{9, g})
 						}
 						break
 					}
@@ -661,12 +696,37 @@ func (m *impl) streamCount() int {
 }
 
 func (m *impl) stream(g int64) *stream {
-	m.sc.mu.Lock()
-	defer m.sc.mu.Unlock()
-	if g < 0 || int(g) >= len(m.sc.streams) {
+	if g < 0 || int(g) >= len(m.ids) {
 		return nil
 	}
-	return m.sc.streams[g]
+	return m.ids[g]
+}
+
+func isExited(st *stream) bool {
+	select {
+	case <-st.exited:
+		return true
+	default:
+		return false
+	}
+}
+
+// adopt gives the streams that registered since the last call their model numbers: in the order of their
+// registration, or (after a burst, where goroutines start in any order) the ones that have exited first.
+func (m *impl) adopt(exitedFirst bool) []int64 {
+	m.sc.mu.Lock()
+	fresh := append([]*stream(nil), m.sc.streams[m.adopted:]...)
+	m.adopted = len(m.sc.streams)
+	m.sc.mu.Unlock()
+	if exitedFirst {
+		sort.SliceStable(fresh, func(i, j int) bool { return isExited(fresh[i]) && !isExited(fresh[j]) })
+	}
+	var ids []int64
+	for _, st := range fresh {
+		ids = append(ids, int64(len(m.ids)))
+		m.ids = append(m.ids, st)
+	}
+	return ids
 }
 
 func (m *impl) subscribed() bool {
@@ -678,8 +738,11 @@ func (m *impl) Exec(op hx.Zs) []hx.Zs {
 		return []hx.Zs{{97}}
 	}
 	if op[0] == 0 {
-		if len(op) != 2 {
+		if len(op) != 2 && len(op) != 3 {
 			return []hx.Zs{{97}}
+		}
+		if len(op) == 3 && op[2] > 0 && !m.configured {
+			defer m.w.delay.Store(op[2] * int64(time.Millisecond)) // after the set-up traffic
 		}
 		if m.configured || op[1] < 1 || op[1]%100 != 0 {
 			if !m.configured {
@@ -779,6 +842,11 @@ func (m *impl) Exec(op hx.Zs) []hx.Zs {
 		}
 		m.w.take()
 		return []hx.Zs{{14, b2i(m.subscribed())}}
+	case 8: // Burst mode k n
+		if len(op) != 4 {
+			return []hx.Zs{{97}}
+		}
+		return m.burst(op[1], int(op[2]), int(op[3]), period)
 	case 7:
 		if m.stopped || len(op) > 1 {
 			// a refresh of a stream that was not stopped properly would arrive within one period
@@ -798,6 +866,141 @@ func (m *impl) Exec(op hx.Zs) []hx.Zs {
 		return []hx.Zs{{15, r.counter}}
 	}
 	return []hx.Zs{{97}}
+}
+
+// burst: k StartHeartbeat calls with nothing parked in between (mode 0: back to back from this goroutine with
+// one P, so that none of the spawned goroutines runs before the last start returned; otherwise k goroutines
+// released together), then every stream runs freely until n refreshes happened; reported: the stream left
+// over, how many different streams refreshed, whether the n refreshes came quicker than one stream can
+// produce them, the last counter, the notifies for these refreshes, whether the counters increased.
+func (m *impl) burst(mode int64, k, n int, period time.Duration) []hx.Zs {
+	if k < 2 || k > 8 || n < 2 || n > 12 {
+		return []hx.Zs{{3}}
+	}
+	if m.waiter != nil {
+		return []hx.Zs{{3}}
+	}
+	for _, w := range m.threads {
+		if w.state == 2 {
+			return []hx.Zs{{3}}
+		}
+	}
+	if !m.added.Load() {
+		if err := m.hb.StartHeartbeat(); err != nil {
+			return []hx.Zs{{7}}
+		}
+		return []hx.Zs{{96}} // a stream without feature (unrepaired code): not continued
+	}
+	m.adopt(false)
+	m.notifies()
+	n0 := m.streamCount()
+	m.sc.mu.Lock()
+	m.sc.free = n
+	m.sc.freeRefr = nil
+	m.sc.mu.Unlock()
+	errs := make([]error, k)
+	if mode == 0 {
+		old := runtime.GOMAXPROCS(1)
+		for i := 0; i < k; i++ {
+			errs[i] = m.hb.StartHeartbeat()
+		}
+		runtime.GOMAXPROCS(old)
+	} else {
+		gate := make(chan struct{})
+		var wg sync.WaitGroup
+		for i := 0; i < k; i++ {
+			wg.Add(1)
+			go func(i int) {
+				defer wg.Done()
+				<-gate
+				errs[i] = m.hb.StartHeartbeat()
+			}(i)
+		}
+		close(gate)
+		done := make(chan struct{})
+		go func() { wg.Wait(); close(done) }()
+		select {
+		case <-done:
+		case <-time.After(5 * time.Second):
+			return []hx.Zs{{96}}
+		}
+	}
+	m.stopped = true
+	for deadline := time.Now().Add(2 * time.Second); m.streamCount() < n0+k && time.Now().Before(deadline); {
+		time.Sleep(200 * time.Microsecond)
+	}
+	// the free run: n refreshes of one stream take n periods
+	eff := period
+	if m.tmo > 2000 {
+		eff -= 2 * time.Second // heuristic of the search only: the ticker period the code derives from the timeout
+	}
+	deadline := time.Now().Add(time.Duration(n+2)*period + tolOf(m.tmo))
+	var evs []freeEvent
+	for {
+		m.sc.mu.Lock()
+		evs = append([]freeEvent(nil), m.sc.freeRefr...)
+		m.sc.mu.Unlock()
+		if len(evs) >= n || time.Now().After(deadline) {
+			break
+		}
+		time.Sleep(time.Millisecond)
+	}
+	m.sc.mu.Lock()
+	m.sc.free = 0
+	m.sc.mu.Unlock()
+	// the streams that were stopped by a later start have returned by now
+	for deadline := time.Now().Add(100 * time.Millisecond); time.Now().Before(deadline); {
+		alive := 0
+		m.sc.mu.Lock()
+		for _, st := range m.sc.streams[n0:] {
+			if !isExited(st) {
+				alive++
+			}
+		}
+		m.sc.mu.Unlock()
+		if alive <= 1 {
+			break
+		}
+		time.Sleep(time.Millisecond)
+	}
+	ids := m.adopt(true)
+	g := int64(-1)
+	if len(ids) > 0 {
+		g = ids[len(ids)-1]
+	}
+	distinct := map[*stream]bool{}
+	mono := true
+	last := int64(-1)
+	counters := map[int64]bool{}
+	for _, e := range evs {
+		distinct[e.st] = true
+		if e.r.counter <= last {
+			mono = false
+		}
+		last = e.r.counter
+		counters[e.r.counter] = true
+	}
+	var nn int64
+	for c, cnt := range m.notifies() {
+		if counters[c] {
+			nn += cnt
+		} else {
+			nn += 100 * cnt
+		}
+	}
+	fast := false
+	if len(evs) >= 2 {
+		elapsed := evs[len(evs)-1].r.at.Sub(evs[0].r.at)
+		fast = elapsed < time.Duration(len(evs)-1)*eff*6/10
+	}
+	stats.Lock()
+	stats.bursts++
+	stats.refreshes += len(evs)
+	stats.Unlock()
+	if last < 0 {
+		last = 0
+	}
+	return []hx.Zs{{16, g, int64(len(distinct)), b2i(fast), last, nn, b2i(mono)}}
 }
 
 // tick: stream st parked at Heartbeat.fired (wait for its ticker, at most the announced timeout plus
@@ -1009,6 +1212,40 @@ func gen(r *hx.Rng, tier string, i int) []hx.Zs {
 			h = append(h, hx.Zs{3, g})
 		}
 	}
+	switch {
+	case i%8 == 5: // rapid restarts with nothing parked in between, then the streams run freely
+		tm = []int64{100, 100, 200, 2100}[r.Intn(4)]
+		h = []hx.Zs{{0, tm}}
+		if r.Chance(3, 4) {
+			h = append(h, hx.Zs{5})
+		}
+		h = append(h, seq(0, 3)...)
+		streams++
+		if r.Bool() {
+			h = append(h, hx.Zs{3, 0})
+		}
+		for b := r.Range(1, 2); b > 0; b-- {
+			k := int64(r.Range(2, 4))
+			mode := int64(r.Pick(2, 1))
+			if mode == 1 {
+				k = int64(r.Range(4, 8))
+			}
+			h = append(h, hx.Zs{8, mode, k, int64(r.Range(4, 6))})
+			streams += k
+			h = append(h, hx.Zs{3, streams - 1}, hx.Zs{3, streams - 2}, call(1, 0))
+		}
+		h = append(h, seq(1, int64(r.Pick(1, 1))*3+1)...)
+		h = append(h, hx.Zs{3, streams - 1}, hx.Zs{7, 1}, hx.Zs{3, streams - 1}, call(0, 0))
+		return h
+	case i%16 == 7: // the subscribed peer sits behind a slow connection: the period must not stretch
+		tm = []int64{300, 400}[r.Intn(2)]
+		h = []hx.Zs{{0, tm, tm * 2 / 3}, {5}}
+		h = append(h, seq(0, 3)...)
+		h = append(h, hx.Zs{4, 0, int64(r.Range(3, 4))}, hx.Zs{3, 0})
+		h = append(h, seq(1, 1)...)
+		h = append(h, hx.Zs{3, 0}, hx.Zs{7})
+		return h
+	}
 	if r.Chance(2, 3) {
 		h = append(h, hx.Zs{5})
 	}
@@ -1133,6 +1370,18 @@ func fixed(tier string) [][]hx.Zs {
 		// RemoveEntity stops the heartbeat; the peer's subscription stays registered, a later start refreshes and notifies again
 		cat([]hx.Zs{{0, 200}, {5}}, add, []hx.Zs{{3, 0}}, seq(0, 4), []hx.Zs{{3, 0}, {7}, {5}}, seq(0, 2), []hx.Zs{{3, 1}, {3, 1}}, seq(0, 1), []hx.Zs{{3, 1}, {7}}),
 	}
+	hs = append(hs,
+		// two and three starts back to back on one P (no spawned goroutine runs before the last start returned), then a free run
+		cat([]hx.Zs{{0, 100}, {5}}, add, []hx.Zs{{8, 0, 2, 6}, {3, 2}, {3, 1}}, seq(1, 1), []hx.Zs{{3, 2}, {7, 1}, call(0, 0)}),
+		cat([]hx.Zs{{0, 100}}, add, []hx.Zs{{3, 0}, {8, 0, 3, 6}, {3, 3}, {3, 0}, {8, 0, 2, 4}, {3, 5}}, seq(1, 4), []hx.Zs{{3, 5}, {7, 1}, call(0, 0)}),
+		// the entity is removed, its heartbeat started again, the entity removed a second time: stopped again
+		cat([]hx.Zs{{0, 100}, {5}}, add, seq(0, 4), []hx.Zs{{3, 0}}, seq(0, 2), []hx.Zs{{3, 1}}, seq(0, 4), []hx.Zs{{3, 1}, {7, 1}, call(0, 0)}),
+		// eight goroutines start the heartbeat at the same moment
+		cat([]hx.Zs{{0, 100}, {5}}, add, []hx.Zs{{8, 1, 8, 6}, {3, 8}, {8, 1, 8, 5}, {3, 16}}, seq(1, 1), []hx.Zs{{3, 16}, {7, 1}, call(0, 0)}),
+		// a subscribed peer whose connection takes 2/3 of the timeout per write: the period must stay the ticker's
+		cat([]hx.Zs{{0, 300, 200}, {5}}, add, []hx.Zs{{4, 0, 4}, {3, 0}}, seq(1, 1), []hx.Zs{{3, 0}, {7}}),
+		cat([]hx.Zs{{0, 400, 260}, {5}}, add, []hx.Zs{{4, 0, 3}}, seq(1, 1), []hx.Zs{{3, 0}, {7}}),
+	)
 	if tier == "thorough" {
 		for _, t := range []int64{2500, 4000, 1000} {
 			hs = append(hs, cat([]hx.Zs{{0, t}, {5}}, add, []hx.Zs{{4, 0, 4}}, seq(0, 1), []hx.Zs{{3, 0}, {7}}))
@@ -1158,9 +1407,9 @@ func extra() map[string]any {
 		gaps[fmt.Sprintf("timeout_%dms", t)] = map[string]any{"expected_period_ms": exp, "gaps": len(s), "min_ms": s[0], "median_ms": s[len(s)/2], "max_ms": s[len(s)-1],
 			"tolerance_ms": tolOf(t).Milliseconds()}
 	}
-	return map[string]any{"measured_periods": gaps, "refreshes_observed": stats.refreshes, "real_time_runs": stats.realTimeRun,
+	return map[string]any{"measured_periods": gaps, "refreshes_observed": stats.refreshes, "real_time_runs": stats.realTimeRun, "bursts": stats.bursts,
 		"start_without_feature_probe": stats.probe,
-		"runtime_parts": "wall-clock period (measured per real-time run, tolerance 60 ms + timeout/4), timestamp within 1.5 s of the observation, select's choice (forced through the hooks) are measured, not proved"}
+		"runtime_parts":               "wall-clock period (measured per real-time run, tolerance 60 ms + timeout/4), timestamp within 1.5 s of the observation, select's choice (forced through the hooks) are measured, not proved"}
 }
 
 func main() {
@@ -1173,11 +1422,11 @@ func main() {
 		Clauses: map[int64]string{1: "panic", 2: "counter-not-increasing", 3: "refresh-not-notified-once", 4: "two-concurrent-streams",
 			5: "refresh-after-stop", 6: "period-exceeds-timeout", 7: "stale-timestamp-or-timeout", 8: "running-flag-wrong",
 			9: "data-changed-without-refresh", 10: "malformed-observation", 98: "unparseable-observation", 99: "unparseable-operation"},
-		OpNames: map[int64]string{0: "setup", 1: "call", 2: "resume", 3: "tick", 4: "run-real-time", 5: "subscribe", 6: "unsubscribe", 7: "read"},
+		OpNames: map[int64]string{0: "setup", 1: "call", 2: "resume", 3: "tick", 4: "run-real-time", 5: "subscribe", 6: "unsubscribe", 7: "read", 8: "burst-of-starts"},
 		NewImpl: newImpl,
 		Gen:     gen,
 		Fixed:   fixed,
-		Count:   map[string]int{"quick": 56, "thorough": 1100},
+		Count:   map[string]int{"quick": 48, "thorough": 1100},
 		Extra:   extra,
 	})
 }
